@@ -100,7 +100,12 @@ class FnWiring:
             return {("list" if isinstance(e, ast.List) else "tuple", tuple(parts))}
         if isinstance(e, ast.Subscript):
             base = self.ev(e.value, env, guards)
-            idx = e.slice.value if isinstance(e.slice, ast.Constant) else S.unparse(e.slice)
+            if isinstance(e.slice, ast.Constant):
+                idx = e.slice.value
+            elif isinstance(e.slice, ast.Slice) or not any(isinstance(n_, ast.Name) and n_.id in env for n_ in ast.walk(e.slice)):
+                idx = S.unparse(e.slice)
+            else:
+                idx = ("idx", frozenset(self.ev(e.slice, env, guards)))      # an index computed from locals: named by its provenance, not by the variable
             out = set()
             for d in base:
                 if d[0] in ("tuple", "list") and isinstance(idx, int) and -len(d[1]) <= idx < len(d[1]):
@@ -396,6 +401,8 @@ def simplify(d):
     if k in ("list", "tuple"):
         return "[" + ", ".join("|".join(sorted(simplify(x) for x in part)) for part in d[1]) + "]"
     if k == "item":
+        if isinstance(d[2], tuple) and d[2] and d[2][0] == "idx":
+            return f"{simplify(d[1])}[" + "|".join(sorted(simplify(x) for x in d[2][1])) + "]"
         return f"{simplify(d[1])}[{d[2]}]"
     if k == "binop":
         return f"({simplify(d[2])} {d[1]} {simplify(d[3])})"
